@@ -258,7 +258,7 @@ def run(c):
     simdir = {k: os.path.join(c.work, "sim_" + k) for k in ("s3", "s4")}
     for d in simdir.values():
         os.makedirs(d, exist_ok=True)
-    nsim, dsim = (40, 45) if quick else (300, 60)
+    nsim, dsim = (40, 45) if quick else (700, 60)
     GENS = [("gen3", "Gen_DposLib.cfg", "gen-T3"), ("gen4", "Gen_DposLib_T4.cfg", "gen-T4"),
             ("gen4e", "Gen_DposLib_T4e.cfg", "gen-T4e"), ("gen3w", "Gen_DposLib_T3w.cfg", "gen-T3w")]
     CLEAN = [
@@ -285,7 +285,7 @@ def run(c):
     ] + [(k, cfg, 1, 600, None) for (k, cfg, _, _) in (ASCODED if not REPAIRED[0] else [])]
     if not quick:
         jobs.append(("genfull", "Gen_DposLib_full.cfg", 1, 1500, None))
-        jobs.append(("simfix", "Sim_DposLib_fix.cfg", 2, 900, ["-simulate", "num=15000", "-depth", "70", "-seed", str(c.seed * 7919 + 5)]))
+        jobs.append(("simfix", "Sim_DposLib_fix.cfg", 3, 1500, ["-simulate", "num=25000", "-depth", "70", "-seed", str(c.seed * 7919 + 5)]))
     with concurrent.futures.ThreadPoolExecutor(max_workers=2) as ex:
         fb = ex.submit(build_harness, c)
         ft = ex.submit(tlc_batch, c, jobs, 5)
@@ -320,7 +320,7 @@ def run(c):
         gf = []
         if not quick:
             c.require_ok(R["genfull"], "transition enumeration: full protocol, 3 nodes, 3 blocks, 1 restart")
-            gf, ntrf, nstf, totf = graph_behaviours(R["genfull"], "Gen_DposLib_full.cfg", "gen-full", rng, max_paths=1500)
+            gf, ntrf, nstf, totf = graph_behaviours(R["genfull"], "Gen_DposLib_full.cfg", "gen-full", rng, max_paths=4000)
             c.notes.append("Gen_DposLib_full: %d transitions, %d states, %d covering behaviours, %d replayed" % (ntrf, nstf, totf, len(gf)))
         _t("behaviours: %d scenario, %d+%d edge cover, %d+%d simulated, %d full-protocol edge cover" % (len(scen), len(g3), len(g4), len(s3), len(s4), len(gf)))
         replay(c, exe, scen, "ascoded", nshards=max(1, len(scen)))
